@@ -657,6 +657,16 @@ func (s *h) objName() string {
 	return ""
 }
 
+// selfAttach reports whether provider i attaches a backing it produced itself.
+func (s *h) selfAttach(i int) bool {
+	for _, st := range s.sc.threads[i] {
+		if st.op == "attach" && st.from == i {
+			return true
+		}
+	}
+	return false
+}
+
 func refNameOf(obj string, i int) string {
 	return fmt.Sprintf("%s.ref.%d.%06d", obj, i+1, uint64(fileNumOf(i)))
 }
@@ -846,7 +856,11 @@ func judge(hh vsched.Harness, x *vsched.Exec) (outcome, class, desc string) {
 					attached[e.Prov] = "attached-on-retry"
 				}
 				if !shadow[obj] {
-					return fail("attach-succeeded-on-deleted-object", fmt.Sprintf("step %d: AttachRemoteObjects of P%d returned nil but the object is already deleted", k, e.Prov+1))
+					cl := "attach-succeeded-on-deleted-object"
+					if s.selfAttach(e.Prov) {
+						cl = "self-reattach-succeeds-on-deleted-object"
+					}
+					return fail(cl, fmt.Sprintf("step %d: AttachRemoteObjects of P%d returned nil but the object is already deleted", k, e.Prov+1))
 				}
 				if !shadow[ref(e.Prov)] && !noMarkerCheck {
 					return fail("attach-without-ref-marker", fmt.Sprintf("step %d: AttachRemoteObjects of P%d returned nil but its ref marker %s does not exist", k, e.Prov+1, ref(e.Prov)))
@@ -1023,6 +1037,13 @@ func plans() []plan {
 	// S0: the creator keeps its reference and reads while P2 attaches, reads and removes again (the
 	// object must survive everything P2 does or fails to do).
 	s0 := [][]step{{R}, {A(0), R, X}}
+	// S8 (NOT part of a tier; VERIF_SCENARIO=S8-selfreattach only): P2, attached before, removes its
+	// reference and then attaches the backing IT produced itself again under the SAME file number,
+	// while P1 removes. The origin marker named by that backing is the marker the attach has just
+	// re-created, so the check passes whatever happened to the object (reported as known behaviour of
+	// the unchanged tree under class self-reattach-succeeds-on-deleted-object; a DB never reuses a
+	// file number, see checks.d/C41.json).
+	s8 := [][]step{{X}, {X, A(1)}}
 	g := func(name string, nprov int, pre []int, th [][]step, w, qw float64) plan {
 		return plan{sc: scen{name: name, nprov: nprov, pre: pre, threads: th, gated: true}, weight: w, qweight: qw, quickTier: qw > 0, thorTier: true}
 	}
@@ -1056,6 +1077,7 @@ func plans() []plan {
 		g("S6-all", 3, p2, s6, 3, 0),
 		g("S5r-all", 3, nil, s5r, 14, 0),
 	}
+	ps = append(ps, plan{sc: scen{name: "S8-selfreattach", nprov: 2, pre: p2, threads: s8, gated: true}, weight: 1})
 	// quick tier: two failures in the two-provider shapes, one in the three-provider shapes
 	ps = append(ps,
 		gf("S0-fault", 2, nil, s0, false, false, 2, 0, 6),
@@ -1068,8 +1090,8 @@ func plans() []plan {
 		gf("S1-faultx", 2, nil, s1, true, false, 0, 2, 8),
 		gf("S4-faultx", 2, nil, s4, true, false, 0, 2, 12),
 		gf("S3-faultx", 3, p2, s3, true, false, 0, 1, 30),
-		gf("S7-faultx", 3, p2, s7, true, false, 0, 1, 30),
-		gf("S2-faultxn", 3, nil, s2, true, true, 0, 1, 30))
+		gf("S7-faultxn", 3, p2, s7, true, true, 0, 1, 4),
+		gf("S2-faultxn", 3, nil, s2, true, true, 0, 1, 20))
 	// full mode: every hooked mutex/atomic operation is a scheduling point as well
 	ps = append(ps,
 		f("S1-full", 2, nil, s1, 2, 4, 0.5),
